@@ -94,27 +94,27 @@ class SemVer:
         vec: list[int | str]
         if isinstance(in_, str):
             vec = []
-            pre = False
             specified_count = 0
             for m in _SEMVER_TOK_RE.finditer(in_):
                 if m.group(1):
-                    if pre or specified_count < 3:
+                    if specified_count < 3:
                         vec.append(int(m.group(1)))
-                        if not pre:
-                            specified_count += 1
+                        specified_count += 1
                 elif m.group(2):
-                    ident = m.group(2)
-                    if not pre:
-                        # The leading ``-`` is just a section marker.
-                        if ident.startswith('-'):
-                            ident = ident[1:]
-                            if not ident:
-                                continue
+                    # Start of the pre-release section: the rest, up to the
+                    # build metadata, is a dot separated list of identifiers.
+                    # The leading ``-`` is just a section marker.
+                    pre = in_[m.start():].split('+', 1)[0]
+                    if pre.startswith('-'):
+                        pre = pre[1:]
+                    idents = [i for i in pre.split('.') if i]
+                    if idents:
                         while len(vec) < 3:
                             vec.append(0)
                         vec.append(-1)
-                        pre = True
-                    vec.append(ident)
+                        # Identifiers consisting only of digits are numeric.
+                        vec.extend(int(i) if i.isdecimal() else i for i in idents)
+                    break
                 else:
                     break  # +build metadata: discard the rest
         else:
